@@ -3,15 +3,15 @@ import S3V.Spec.PostPolicy
 /-!
 # C10 (signature clause) — a POST form is accepted only if its policy is signed (property theorems only)
 
-The clause "only while the upload satisfies that policy" is stated here in full (`C10_post_policy_enforced_full`), is
-FALSE for the code (which never decodes the policy) and is refuted in `S3V/Findings/C10.lean`; what is proved of it is
-`C10_post_policy_partial`. Field mapping and exact content are in `S3V/Props/C10.lean`.
+The clause "only while the upload satisfies that policy" is `S3V/Props/C10Policy.lean` (the signature check alone does
+not enforce it, `S3V/Findings/C10.lean`; the POST-object gate of `ops::prepare` does since commit 64704af). Field mapping
+and exact content are in `S3V/Props/C10.lean`.
 -/
 namespace S3V.C10
 open S3V S3V.SigV4
 
 /-- the verdict logic of `v4_check_post_signature`, exactly, for an arbitrary MAC (the SIGNATURE clause of C10; the
-    policy-compliance clause is missing from the code, see `C10_post_policy_enforced_full`): the form is accepted as
+    policy-compliance clause is `C10_post_policy_enforced` in `S3V/Props/C10Policy.lean`): the form is accepted as
     (access key, region, service) iff the five signature fields are present (the last duplicate of a name counts),
     the policy is base64, the algorithm is AWS4-HMAC-SHA256, credential and date parse, the key is known and the
     `x-amz-signature` field is the specified signature of the base64 policy text under that key's secret and the
@@ -48,29 +48,7 @@ theorem C10_post_scope_is_credential_scope (hmac : Bytes → Bytes → Bytes) (l
 theorem C10_post_no_provider (hmac : Bytes → Bytes → Bytes) (fields : List (Bytes × Bytes)) :
     v4CheckPostSignature hmac none fields = .err .NotImplemented := rfl
 
-/-! ## the policy-compliance clause of C10 -/
-
-/-- FULL statement of "accepted ⇒ policy-compliant": whenever `v4_check_post_signature` accepts a form, the policy
-    that form carries (the `policy` field the signature was verified on) has not expired at `now`, every condition it
-    places on bucket, key, the other form fields and the content length holds, and every form field is covered
-    (`PostPolicy.PolicyCompliant`, from the AWS POST-policy document). FALSE for the code: the policy is only checked
-    to be base64 and used as the string to sign; it is never decoded. Refuted in `S3V/Findings/C10.lean`
-    (`C10_post_policy_enforced_full_false`), exercised by component `sigv4post` (classes `post-policy-*-accepted`). -/
-def C10_post_policy_enforced_full : Prop :=
-  ∀ (hmac : Bytes → Bytes → Bytes) (look : Bytes → Option Bytes) (rawFields : List (Bytes × Bytes)) (bucket : Bytes)
-    (fileLen : Nat) (now : Int) (ak region service : Bytes),
-    v4CheckPostSignature hmac (some look) (multipartFields rawFields) = .accept ak region service →
-    ∃ policyB64, findFieldValue (multipartFields rawFields) b!"policy" = some policyB64 ∧
-      PostPolicy.formCompliant now policyB64 rawFields bucket fileLen = true
-
-/-- what IS proved of that clause: acceptance implies that the policy text is well-formed base64 and signed — nothing
-    about its content (expiration, conditions, coverage), which is the missing clause -/
-theorem C10_post_policy_partial (hmac : Bytes → Bytes → Bytes) (look : Bytes → Option Bytes)
-    (rawFields : List (Bytes × Bytes)) (ak region service : Bytes)
-    (h : v4CheckPostSignature hmac (some look) (multipartFields rawFields) = .accept ak region service) :
-    ∃ policyB64, findFieldValue (multipartFields rawFields) b!"policy" = some policyB64 ∧ isBase64 policyB64 = true := by
-  obtain ⟨policy, _, _, _, _, hc, _⟩ := (post_accept_iff hmac look (multipartFields rawFields) ak region service).mp h
-  exact ⟨policy, hc.hasPolicy, hc.isB64⟩
+/-! ## the policy-compliance clause of C10: `S3V/Props/C10Policy.lean` (enforced since 64704af) -/
 
 /-! non-vacuity of `PolicyCompliant`: a compliant form satisfies it, each variant does not -/
 
